@@ -150,6 +150,11 @@ def catalogue(rng):
             for ls, rs in [((), ()), ((2,), ()), ((), (3,)), ((2, 3), (3,)), ((2, 1), (1, 3)) if False else ((2,), (2,))]:
                 for op in ("add", "sub", "mul", "max", "logaddexp"):
                     yield ("bin", op, (), g.tensor(ls, list(ln)), g.tensor(rs, list(rn)))
+    # sums and products of two comparison results (bounded-integer valued; numpy represents them as booleans)
+    for ln, rn in [((), ()), (("i",), ("i",)), (("i",), ("j",))]:
+        for c1, c2 in [("lt", "gt"), ("le", "le"), ("eq", "ne")]:
+            for op in ("add", "mul", "max"):
+                yield ("bin", op, (), ("bin", c1, (), g.tensor((), list(ln)), g.tensor((), list(ln))), ("bin", c2, (), g.tensor((), list(rn)), g.tensor((), list(rn))))
     # output reductions: all axis/keepdims
     for shape in [(2,), (3,), (2, 3), (2, 2, 3)]:
         nd = len(shape)
